@@ -270,6 +270,7 @@ theorem actR_taint {s s' : State} {t r : Nat} {p : RPC} (h : actR s t r p = some
                     all_goals rfl
   case wpLoad k => cases h; unfold stepWpLoad; split <;> rfl
   case wpCas k => cases h; unfold stepWpCas; split <;> rfl
+  case wpIdle k th => cases h; unfold stepWpIdle; split <;> rfl
   case mUnlock k => cases h; unfold stepMUnlock; split <;> rfl
   case xFlag d => cases h; unfold stepXFlag; split <;> rfl
   case qDrop => cases h; unfold stepQDrop; split <;> rfl
